@@ -77,7 +77,7 @@ func (unpacker *RtpUnpackerAac) TryUnpackOne(list *RtpPacketList) (unpackedFlag 
 			// one complete access unit
 			var outPkt base.AvPacket
 			outPkt.PayloadType = unpacker.payloadType
-			outPkt.Timestamp = int64(p.Packet.Header.Timestamp / uint32(unpacker.clockRate/1000))
+			outPkt.Timestamp = rtpTimestamp2Ms(p.Packet.Header.Timestamp, unpacker.clockRate)
 			outPkt.Payload = b[aus[0].pos : aus[0].pos+aus[0].size]
 			unpacker.onAvPacket(outPkt)
 
@@ -134,7 +134,7 @@ func (unpacker *RtpUnpackerAac) TryUnpackOne(list *RtpPacketList) (unpackedFlag 
 			} else if cacheSize == totalSize {
 				var outPkt base.AvPacket
 				outPkt.PayloadType = unpacker.payloadType
-				outPkt.Timestamp = int64(p.Packet.Header.Timestamp / uint32(unpacker.clockRate/1000))
+				outPkt.Timestamp = rtpTimestamp2Ms(p.Packet.Header.Timestamp, unpacker.clockRate)
 				for _, a := range as {
 					outPkt.Payload = append(outPkt.Payload, a...)
 				}
@@ -156,9 +156,15 @@ func (unpacker *RtpUnpackerAac) TryUnpackOne(list *RtpPacketList) (unpackedFlag 
 	for i := range aus {
 		var outPkt base.AvPacket
 		outPkt.PayloadType = unpacker.payloadType
-		outPkt.Timestamp = int64(p.Packet.Header.Timestamp / uint32(unpacker.clockRate/1000))
+		outPkt.Timestamp = rtpTimestamp2Ms(p.Packet.Header.Timestamp, unpacker.clockRate)
 		// TODO chef: 这里1024的含义
-		outPkt.Timestamp += int64(uint32(i * (1024 * 1000) / unpacker.clockRate))
+		if unpacker.clockRate != 0 {
+			outPkt.Timestamp += int64(uint32(i * (1024 * 1000) / unpacker.clockRate))
+		}
+		if int(aus[i].pos+aus[i].size) > len(b) {
+			Log.Errorf("access unit exceeds the rtp packet. pos=%d, size=%d, len(b)=%d", aus[i].pos, aus[i].size, len(b))
+			break
+		}
 		outPkt.Payload = b[aus[i].pos : aus[i].pos+aus[i].size]
 		unpacker.onAvPacket(outPkt)
 	}
@@ -174,12 +180,18 @@ type au struct {
 }
 
 func parseAu(b []byte) (ret []au) {
-	// TODO(chef): [fix] 解析b时，没有判断长度有效性 202207
-
 	// AU Header Section
+	if len(b) < 2 {
+		Log.Errorf("rtp packet too short for the au headers length. len(b)=%d", len(b))
+		return nil
+	}
 	var auHeadersLength uint32
 	auHeadersLength = uint32(b[0])<<8 + uint32(b[1])
 	auHeadersLength = (auHeadersLength + 7) / 8
+	if int(2+auHeadersLength) > len(b) {
+		Log.Errorf("au header section exceeds the rtp packet. auHeadersLength=%d, len(b)=%d", auHeadersLength, len(b))
+		return nil
+	}
 
 	// TODO chef: 这里的2是写死的，正常是外部传入auSize和auIndex所占位数的和
 	const auHeaderSize = 2
